@@ -125,6 +125,14 @@ where
         mut key_table: ExpandedKeyTable<W, R>,
         mut key_as_words: KeyAsWords<W, B>,
     ) -> ExpandedKeyTable<W, R> {
+        // A zero-length key (b = 0) is expanded as c = max(1, ceil(b / u)) = 1 zero word.
+        let mut empty_key = [W::ZERO];
+        let key_as_words: &mut [W] = if key_as_words.is_empty() {
+            &mut empty_key
+        } else {
+            &mut key_as_words
+        };
+
         let (mut expanded_key_index, mut key_as_words_index) = (0, 0);
         let (mut a, mut b) = (W::ZERO, W::ZERO);
 
